@@ -50,7 +50,7 @@ func TestMain(m *testing.M) {
 	// A parse or analysis of <= 64 KiB takes milliseconds; a shorter first budget than the default
 	// 20 s keeps the cost of every genuinely hanging input down. The client still re-runs a
 	// silent request alone with the doubled budget before it calls it a hang.
-	px.Pool().Timeout = 8 * time.Second
+	px.Pool().Timeout = 12 * time.Second
 	pk.Main(m)
 }
 
@@ -197,9 +197,25 @@ func request(c Case) (*sb.Request, built, bool) {
 // sub-check "analyze" (sandbox)
 
 var (
-	quickOnce sync.Once
-	quickPool *sb.Pool
+	quickOnce   sync.Once
+	quickPool   *sb.Pool
+	confirmOnce sync.Once
+	confirmPool *sb.Pool
+	// quiet serialises hang confirmation against all other repository work of this process:
+	// ordinary evaluations hold it shared, a confirmation holds it exclusively.
+	quiet sync.RWMutex
 )
+
+// confirmHang repeats a request that exhausted the ordinary budget with a long one (30 s, then 60 s
+// in a fresh worker) while nothing else runs in this process. The lexer is quadratic in the length
+// of an identifier or number, so a 64 KiB lexeme that is parsed once per import statement takes
+// seconds on a loaded machine; that is slow, not a hang, and must not be reported as one.
+func confirmHang(req *sb.Request) *sb.Response {
+	confirmOnce.Do(func() { confirmPool = &sb.Pool{Bin: sb.WorkerBin(), Timeout: 30 * time.Second} })
+	quiet.Lock()
+	defer quiet.Unlock()
+	return confirmPool.Exec(req)
+}
 
 // quick is a second pool with a short budget (3 s, re-run alone with 6 s). It only answers
 // follow-up questions about an input that already exhausted the normal budget: in which stage it
@@ -240,7 +256,14 @@ func analyzeWith(pool *sb.Pool, c Case) (*sb.Response, *pk.Failure) {
 	if !ok {
 		return nil, pk.Failf("analyze", "bad-case", "unknown variant %q", c.Variant)
 	}
+	quiet.RLock()
 	resp := pool.Exec(req)
+	quiet.RUnlock()
+	if resp.Hang && pool == px.Pool() {
+		if resp = confirmHang(req); !resp.Hang {
+			pk.Extra("slow-answers-not-hangs", 1)
+		}
+	}
 	switch {
 	case resp.Inconclusive:
 		pk.Inconclusive()
@@ -372,10 +395,12 @@ type parseInfo struct {
 	tokensOK int // tokens before the first hard error
 }
 
-var lexParseBudget = 10 * time.Second
+var lexParseBudget = 15 * time.Second
 
 func lexParse(c Case) (parseInfo, *pk.Failure) {
 	var pi parseInfo
+	quiet.RLock()
+	defer quiet.RUnlock()
 	r := guard(lexParseBudget, func() { pi.lex = lexAll(c.Text) })
 	switch {
 	case r.panicMsg != "":
@@ -877,6 +902,7 @@ func reduce(c Case, f *pk.Failure) (Case, *pk.Failure) {
 	if f == nil || f.Sig == "bad-case" {
 		return c, f
 	}
+	orig := c
 	check := checkAnalyze
 	maxProbe, budget := 1500, 90*time.Second
 	hang := strings.HasPrefix(f.Sig, "hang")
@@ -932,6 +958,12 @@ func reduce(c Case, f *pk.Failure) (Case, *pk.Failure) {
 	if c.Module != "" && f.Sub == "analyze" {
 		c = r.field(c, func(c *Case) *string { return &c.Module })
 		c = r.field(c, func(c *Case) *string { return &c.Text })
+	}
+	if hang && f.Sub == "analyze" {
+		// the probes ran on the short budget: the reduced case must survive the full confirmation
+		if g := checkAnalyze(c); g == nil || g.Sig != f.Sig {
+			return orig, f
+		}
 	}
 	// the message of the reduced case
 	if g := check(c); g != nil && g.Sig == f.Sig && g.Msg != "" {
